@@ -63,6 +63,12 @@ func (c18) Plan(tier string, seed uint64) []core.Case {
 		}
 		scns = append(scns, s)
 	}
+	// busy in-process sessions at Close: each of their clients has to observe the finished session (an envelope queued
+	// right before the close of an in-process pipe must not be dropped; a receiver that is already blocked in Receive
+	// gets it handed over directly, one that is busy with earlier traffic finds both the envelope and the closing)
+	for k, m := range []string{"immediate", "traffic", "immediate", "traffic"} {
+		scns = append(scns, c18scn{Listeners: []string{rig.InProc}, Sessions: 8, Busy: true, Moment: m, Storm: 8, Perturb: k >= 2})
+	}
 	var cases []core.Case
 	per := 4
 	for i := 0; i < len(scns); i += per {
@@ -106,6 +112,7 @@ type c18cb struct {
 	chans      map[string]*lime.ServerChannel
 	est        map[string]int
 	fin        map[string]int
+	estNotEstablished []string // Established callback for a channel that is not in the established state
 	finBefore  []string // finished before established
 	handlerPre []string // handler ran before established callback
 }
@@ -164,9 +171,15 @@ func (p c18) scenario(r *core.Result, s c18scn, seed uint64) {
 	cfg := rig.DefaultServerConfig()
 	cfg.ChannelBufferSize = 4
 	cfg.Established = func(id string, ch *lime.ServerChannel) {
+		st := ch.State()
 		cb.mu.Lock()
 		cb.est[id]++
 		cb.chans[id] = ch
+		if st != lime.SessionStateEstablished {
+			// nothing in this workload fails or finishes a session from the application's side, and the server
+			// finishes it only after this callback has returned
+			cb.estNotEstablished = append(cb.estNotEstablished, fmt.Sprintf("%s (state %s, remote node %q)", id, st, ch.RemoteNode().String()))
+		}
 		cb.mu.Unlock()
 	}
 	cfg.Finished = func(id string) {
@@ -541,6 +554,9 @@ func (p c18) scenario(r *core.Result, s c18scn, seed uint64) {
 		if st := ch.State(); st != lime.SessionStateFinished && st != lime.SessionStateFailed {
 			fail("session-not-finished", "after Close settled the server channel of session %s (Established and Finished callbacks: %d/%d) is still in state %s", id, cb.est[id], cb.fin[id], st)
 		}
+	}
+	if len(cb.estNotEstablished) > 0 {
+		fail("established-callback-for-unestablished", "the Established callback fired for sessions that are not established: %v", cb.estNotEstablished)
 	}
 	for id, n := range cb.fin {
 		if cb.est[id] == 0 {
